@@ -285,7 +285,7 @@ T_BAD = [["xor", "0"], ["xor"], ["xor", "2", "3"], ["xor", "x"], ["lift", "0"], 
 # != number of variables), a chunk without a transformation, a refused graph argument inside a chunk, `-T none`
 CHAIN_CORPUS = [["php", "2", "1", "-T", "xorcomp", "complete", "3", "2"], ["php", "2", "1", "-T", "majcomp", "complete", "3", "2", "-T", "flip"],
                 ["php", "2", "1", "-T", "xorcomp", "complete", "2", "2"], ["parity", "3", "-T", "xorcomp", "shift", "4", "3", "1"],
-                ["php", "2", "1", "-T"], ["php", "2", "1", "-T", "xorcomp", "foo"], ["php", "2", "1", "-T", "none", "-T", "xor", "2"],
+                ["php", "2", "1", "-T"], ["php", "2", "1", "-T", "xorcomp", "complete", "x", "2"], ["php", "2", "1", "-T", "none", "-T", "xor", "2"],
                 ["php", "2", "1", "-T", "flip", "-T", "xorcomp", "empty", "3", "2"], ["php", "2", "1", "-T", "xorcomp"]]
 
 
@@ -389,10 +389,10 @@ def cases(ctx):
             xs = by[name]
             gl += xs if len(xs) <= 6 else rng.sample(xs, 6)
     else:
-        gl = rng.sample(gl, min(len(gl), 1400))
+        gl = rng.sample(gl, min(len(gl), 700))
     for n, a in gl:
         out.append(build("o_run", {"cls": 0, "name": n, "argv": a}))
-    for n, a in rng.sample(gl, min(len(gl), 400 if tier == "thorough" else 16)):
+    for n, a in rng.sample(gl, min(len(gl), 200 if tier == "thorough" else 16)):
         out.append(build("o_run", {"cls": 1, "name": n, "argv": a}))
     # --- o_chain: transformation chains
     seen, cl = set(), []
@@ -402,7 +402,9 @@ def cases(ctx):
             cl.append(line)
     answers = common.run_driver([line_req(l) for l in cl])
     cl = [l for l, ans in zip(cl, answers) if ans != "UNSUPPORTED" and len(ans) < 200000]
-    cl = [l for l in CHAIN_CORPUS] + rng.sample(cl, min(len(cl), 62 if tier == "quick" else 1500))
+    corpus_ans = common.run_driver([line_req(l) for l in CHAIN_CORPUS])
+    cl = [l for l, ans in zip(CHAIN_CORPUS, corpus_ans) if ans != "UNSUPPORTED"] + \
+        rng.sample(cl, min(len(cl), 62 if tier == "quick" else 700))
     for l in cl:
         out.append(build("o_chain", {"line": l}))
     for c in out:
